@@ -34,7 +34,7 @@ import (
 var quiet = slog.New(slog.NewTextHandler(io.Discard, nil))
 
 const (
-	ok1Src   = "package x\n\ntempl Ok1(s string) {\n\t<p>{ s }</p>\n}\n"
+	ok1Src   = "package x\n\ntempl Ok1(s string) {\n\t<p>é{ s }ü{ \"ß\" + s }</p>\n}\n"
 	ok2Src   = "package x\n\ncss red() {\n\tcolor: red;\n}\n\ntempl Ok2() {\n\t<div class={ red() }>two</div>\n}\n"
 	badSrc   = "package x\n\ntempl Bad() {\n\t<div>\n}\n"                     // unparseable
 	badGoSrc = "package x\n\ntempl BadGo(s string) {\n\t<p>{ s +* }</p>\n}\n" // parses, generated code is not valid Go
@@ -314,6 +314,32 @@ var sched struct {
 }
 
 func runChild(run *vlib.Run, scratch string) {
+	// ---- free-running -race pass of the real Run with 8 workers ----
+	{
+		rc := exec.Command(filepath.Join(scratch, "vchild"), append([]string{filepath.Join(tgen.VerifDir(), "harness/c15")}, append(append([]string{}, os.Args[1:]...), "race")...)...)
+		rc.Env = append(os.Environ(), "VERIF_CHILD_RACE=1", "GORACE=halt_on_error=0")
+		var stderr bytes.Buffer
+		rc.Stdout, rc.Stderr = os.Stdout, &stderr
+		err := rc.Run()
+		if ee, ok := err.(*exec.ExitError); err != nil && (!ok || ee.ExitCode() != 66) {
+			fmt.Fprintln(os.Stderr, stderr.String())
+			vlib.Fatal("race pass failed: %v", err)
+		}
+		var r map[string]any
+		b, rerr := os.ReadFile(filepath.Join(scratch, "race.json"))
+		if rerr != nil {
+			vlib.Fatal("race pass result missing")
+		}
+		json.Unmarshal(b, &r)
+		r["race_detector_reports"] = strings.Count(stderr.String(), "WARNING: DATA RACE")
+		if strings.Contains(stderr.String(), "WARNING: DATA RACE") {
+			run.Violation("data-race", "the race detector reported a data race in `templ generate` with 8 workers: "+firstLines(stderr.String(), 25), map[string]any{"report": firstLines(stderr.String(), 80)})
+		}
+		if m, _ := r["mismatch"].(string); m != "" {
+			run.Violation("depends-on-worker-count", "free-running pass: "+m, r)
+		}
+		run.Cov["race_pass"] = r
+	}
 	// ---- part 2/3: schedule exploration child ----
 	cmd := exec.Command(filepath.Join(scratch, "vchild"), append([]string{filepath.Join(tgen.VerifDir(), "harness/c15")}, os.Args[1:]...)...)
 	cmd.Stdout, cmd.Stderr = os.Stdout, os.Stderr
